@@ -226,6 +226,26 @@ def check_statements(stmts, metamorphic=True):
                 return "the lowered tree depends on the order in which the statements are stored (order %d)" % k
         if astwalk.serialise(lower(stmts, frozenset)) != base:
             return "the lowered tree differs when the statements are stored in a frozenset"
+        # a phase obtained from another one by copy(statements=...): nothing of the old phase (its roots, say)
+        # may survive in the copy
+        import dagrt.language as lang
+        from dagrt.codegen.dag_ast import create_ast_from_phase
+        done_ids = set()
+        prefix = []
+        for s_ in sorted(stmts, key=lambda x: len(anc[x.id])):
+            if set(s_.depends_on) <= done_ids and len(prefix) < max(1, n // 2):
+                prefix.append(s_)
+                done_ids.add(s_.id)
+        if prefix and len(prefix) < n:
+            small = lang.ExecutionPhase(name="p", next_phase="p", statements=list(prefix))
+            small.depends_on            # (computed, and possibly remembered, for the small phase)
+            try:
+                big = small.copy(statements=list(stmts))
+                tree = create_ast_from_phase(lang.DAGCode({"p": big}, "p"), "p")
+                if astwalk.serialise(tree) != base:
+                    return "a phase made by copy(statements=...) from a smaller phase lowers differently from a phase made directly"
+            except Exception as e:
+                return "lowering a phase made by copy(statements=...) raised %s: %s" % (type(e).__name__, str(e)[:80])
     return None
 
 
@@ -245,7 +265,7 @@ def check_case(case):
 
 def sig_of(msg):
     for key in ("raised", "cannot be walked", "rejects the lowered tree", "generic backend walker executes",
-                "executed twice", "tree executes", "sits in loops", "whose counter", "share one loop node", "runs before", "depends on the order", "frozenset"):
+                "executed twice", "tree executes", "sits in loops", "whose counter", "share one loop node", "runs before", "depends on the order", "frozenset", "copy(statements"):
         if key in msg:
             return key
     return msg[:40]
